@@ -223,7 +223,7 @@ func checkC07(replay string) {
 	r := base.NewRun("C07")
 	r.Rule = "for diagnostics of generated programs covering all 16 codes: insert ONE @ignore comment (placement x in/out of scope x code-list shape), and in a second phase TWO comments (outer declaration/file/compound scope + a second comment before or trailing an earlier statement, same or different code list), re-run the real binary and compare every (line, analyzer) with the reference scope model (file / declaration / statement / line scope; ALL>category>code, case-insensitive; TONL01/PKGO01 move to the next unsuppressed use); distinct = distinct (placement, where, list shape, code) combinations judged"
 	r.Assume = []string{"scope model on the generator's statement extents, one statement per line", "placements the statement does not describe are not generated here (FREE)"}
-	nProg := r.Pick(24, 300)
+	nProg := r.Pick(24, 160)
 	perProg := r.Pick(48, 160)
 	placements := []ignCase{}
 	for _, pl := range []struct {
